@@ -1681,6 +1681,9 @@ impl Matcher {
             }
         }
 
+        #[cfg(feature = "verif")]
+        crate::verif::gate_blocking("matcher-before-commit");
+
         tx.commit()?;
 
         trace!("committed!");
